@@ -27,7 +27,7 @@ MANIFEST = dict(
 ASB_FILE = os.path.join(core.VERIF, "spec", "asbuilt_options.json")
 VNAMES = ["VProps", "VDict", "VNice", "VPreset", "VFilter", "VSize", "VReaderMinDict"]
 WRITERS = ["lzma", "lzmahdr", "lzma2", "xz", "lzip", "lzma2mt", "lzipmt"]
-DICT = {"0": 0, "1": 1, "4095": 4095, "4096": 4096, "64K": 65536, "1M": 1 << 20, "768M": 768 << 20, "768M+1": (768 << 20) + 1,
+DICT = {"0": 0, "1": 1, "4095": 4095, "4096": 4096, "64K": 65536, "100000": 100000, "600000": 600000, "1M": 1 << 20, "768M": 768 << 20, "768M+1": (768 << 20) + 1,
         "1.5G": 0x60000000, "2G": 0x80000000, "4G-16": 0xFFFFFFF0, "4G-1": 0xFFFFFFFF}
 DEPTH = {"min": -(1 << 31), "neg1": -1, "zero": 0, "one": 1, "max": (1 << 31) - 1}
 PD = {"empty": 0, "some": 100, "long": 70000}
@@ -206,6 +206,10 @@ def run(tier, replay=None):
             variants = [("text", 3000)]
         elif (not quick) or p["slice"] in ("props", "preset", "filter", "size", "base") or (i % 4 == 0):
             variants.append(large)
+        # dictionary slice: an input whose matches lie just inside the dictionary (a random block repeated at distance
+        # dict - 500): a container that announces a smaller window than the encoder used is only then undecodable
+        if p["slice"] == "dict" and 4096 <= DICT[p["dict"]] <= (1 << 20):
+            variants.append(("repeat_far", 3 * (DICT[p["dict"]] - 500)))
         for v in variants:
             c = concretise(p, i, v)
             if c is None:
